@@ -2,6 +2,19 @@
 (* Named toy instances for ElemCodec (cfg files cannot hold records):  C <- <curve>,  F <- <format>.       *)
 (* Every curve was found by exhaustive search (work/c13/findcurves.py); ElemCodec's ASSUMEs re-check the     *)
 (* claims (generator on the curve, its order, group closed, composite-order points exist).                   *)
+(*                                                                                                            *)
+(* Configurations (checks/C13.py writes them; a few are kept next to this file).  Some of them model a         *)
+(* defect of the code or a format that cannot satisfy C13 as stated, and are EXPECTED TO FAIL:                 *)
+(*   P61 x Sec1c            02 || 0...0 is both the identity and the point (0, y even): E_RoundTrip,           *)
+(*                          E_Injective, E_EncSem, S_Sound, S_CodeConforms (p256)    -> repair: Sec1cStrict    *)
+(*   E61 / E61P x Montc     the u-only form identifies P and -P (and, on the full curve, the point of order    *)
+(*                          two with the identity): E_RoundTrip, E_Injective; E61P satisfies the ModSign       *)
+(*                          variants, E61 does not (curve25519, by design of RFC 7748)                         *)
+(*   E61 x Montu            the encoder has no v for the point of order two (it panics): E_RoundTrip           *)
+(*   B19 x Blsu             compression / sign flags ignored: S_RejectsBad (bls12381)  -> repair: BlsuStrict   *)
+(*   B19 x AffineX          no membership test: S_Sound (G1.FromAffineX)               -> repair: AffineXStrict *)
+(*   GT23 x Gt              any residue accepted, even 0: S_Sound (Gt.FromBytes)       -> repair: GtStrict      *)
+(* Everything else must hold.                                                                                  *)
 EXTENDS ElemCodec
 
 \* secp256k1-like: y^2 = x^3 + 7 over F_61, 61 points (prime), NO point with x = 0; p just below 2^6
